@@ -1252,7 +1252,13 @@ JANET_CORE_FN(cfun_channel_choice,
         if (janet_indexed_view(argv[i], &data, &len) && len == 2) {
             /* Write */
             JanetChannel *chan = janet_getchannel(data, 0);
-            janet_channel_push_with_lock(chan, data[1], 1);
+            if (!janet_channel_push_with_lock(chan, data[1], 1)) {
+                /* A waiting taker received the value, so this clause has completed: resume with
+                 * its result instead of parking forever. Remaining clauses are not registered. */
+                janet_schedule(janet_vm.root_fiber, make_write_result(chan));
+                chan_unlock_args(argv + i + 1, argc - i - 1);
+                break;
+            }
         } else {
             /* Read */
             Janet item;
